@@ -1181,25 +1181,17 @@ func (mgr *Manager) UpdateTag(name string, operation UpdateTagOperation) error {
 	info := updateTagOperationInfo{convertersUpdated: false}
 	operation(&info)
 	maxUsedStreamID := uint64(0)
-	if len(info.markTagAddStreams) != 0 || len(info.markTagDelStreams) != 0 {
+	markStreams := len(info.markTagAddStreams) != 0 || len(info.markTagDelStreams) != 0
+	if markStreams {
 		if !(strings.HasPrefix(name, "mark/") || strings.HasPrefix(name, "generated/")) {
 			return fmt.Errorf("tag %q is not of type 'mark' or 'generated'", name)
 		}
 		for _, s := range info.markTagAddStreams {
-			if maxUsedStreamID <= s {
-				maxUsedStreamID = s + 1
-			}
+			maxUsedStreamID = max(maxUsedStreamID, s)
 		}
 		for _, s := range info.markTagDelStreams {
-			if maxUsedStreamID <= s {
-				maxUsedStreamID = s + 1
-			}
+			maxUsedStreamID = max(maxUsedStreamID, s)
 		}
-		if maxUsedStreamID == 0 {
-			// no operation
-			return nil
-		}
-		maxUsedStreamID--
 	}
 	var newTag *tag
 	if info.query != nil {
@@ -1325,7 +1317,7 @@ func (mgr *Manager) UpdateTag(name string, operation UpdateTagOperation) error {
 				}
 				mgr.startConverterJobIfNeeded()
 			}
-			if maxUsedStreamID != 0 {
+			if markStreams {
 				if maxUsedStreamID >= mgr.nextStreamID {
 					return fmt.Errorf("unknown stream id %d", maxUsedStreamID)
 				}
